@@ -262,6 +262,8 @@ def interpolate_guard(report, ntargets=2):
         def run(c):
             g = [np.array([sym(f'g{d}a'), sym(f'g{d}b')], dtype=object) for d in range(3)]
             t = [np.array([sym(f't{d}{chr(97 + k)}') for k in range(ntargets)], dtype=object) for d in range(3)]
+            for d in range(3):
+                c.pre.append(tm.lt(g[d][0].t, g[d][1].t))          # grid coordinates strictly ascending
             val = np.zeros((2, 2, 2))
             try:
                 numerical.interpolate(val, tuple(g), tuple(t))
@@ -300,8 +302,8 @@ def interpolate_guard(report, ntargets=2):
         try:
             numerical.interpolate(np.zeros((2, 2, 2)), tuple(gs), tuple(t))
             r2 = False
-        except ValueError:
-            r2 = True
+        except ValueError as ex:
+            r2 = 'outside grid bounds' in str(ex)
         if r2 != outside:
             report.violation('interpolate guard', f"interpolate {'raised' if r2 else 'did not raise'} for targets {t} on grid {gs}",
                              report.write_replay('interpolate_guard', dict(model=model)))
